@@ -458,7 +458,551 @@ def used_before_override_cases():
             yield {"dom": "directed", "name": "used_before_override", "async": a, "before": before}
 
 
-SCENARIOS = {"used_before_override": used_before_override, "rewritten_file": rewritten_file, "shared_decorator": shared_decorator, "construct_inside_contract": construct_inside_contract,
+# --------------------------------------------------------------------------- C17 (more)
+
+def decorating_another_function(case):
+    """one decorator instance applied to a second function: the first function's behaviour does not change"""
+    def cond(x, lowest=0):
+        return x >= lowest
+
+    deco = icontract.require(cond) if case["role"] == "require" else icontract.ensure(cond)
+
+    def verdict(fn, *a):
+        try:
+            fn(*a)
+            return "ok"
+        except icontract.ViolationError:
+            return "violation"
+        except BaseException as e:  # noqa: B902
+            return "raised %s" % type(e).__name__
+
+    def with_param():
+        @deco
+        def f(x, lowest):
+            return x
+        return f
+
+    def without_param():
+        @deco
+        def g(x):
+            return x
+        return g
+
+    first, second = (with_param, without_param) if case["order"] == "param-first" else (without_param, with_param)
+    probes_p = [(1, 5), (-1, -3), (7, 7), (0, 1)]
+    probes_n = [(1,), (-1,), (0,)]
+    fails = []
+    f1 = first()
+    pr1 = probes_p if first is with_param else probes_n
+    before = [verdict(f1, *a) for a in pr1]
+    want1 = ["ok" if (a[0] >= (a[1] if len(a) > 1 else 0)) else "violation" for a in pr1]
+    if before != want1:
+        fails.append("the first function: verdicts %s, expected %s" % (before, want1))
+    f2 = second()
+    after = [verdict(f1, *a) for a in pr1]
+    if after != before:
+        fails.append("decorating a second function with the same decorator object changed the first function: %s -> %s on %s" % (before, after, pr1))
+    pr2 = probes_p if second is with_param else probes_n
+    got2 = [verdict(f2, *a) for a in pr2]
+    want2 = ["ok" if (a[0] >= (a[1] if len(a) > 1 else 0)) else "violation" for a in pr2]
+    if got2 != want2:
+        fails.append("the second function: verdicts %s, expected %s on %s" % (got2, want2, pr2))
+    return {"fails": fails}
+
+
+def decorating_another_function_cases():
+    for role in ("require", "ensure"):
+        for order in ("param-first", "param-second"):
+            yield {"dom": "directed", "name": "decorating_another_function", "role": role, "order": order}
+
+
+def late_decoration_of_inheriting_override(case):
+    """a member that overrides a contracted base member WITHOUT own contracts is decorated after its class exists:
+    the contract lands on the subclass member only"""
+    def small(result):
+        return result < 100
+
+    def nonneg(self, x):
+        return x >= 0
+
+    def body(self, x):
+        return x
+
+    def mk(doc):
+        def f(self, x):
+            return x
+        f.__doc__ = doc
+        return f
+
+    base_f = icontract.require(nonneg)(mk("Return x." if case["base_doc"] else None))
+    Base = type(icontract.DBC)("Base", (icontract.DBC,), {"f": base_f})
+    Derived = type(Base)("Derived", (Base,), {"f": mk("Override." if case["derived_doc"] else None)})
+    Sibling = type(Base)("Sibling", (Base,), {"f": mk(None)})
+
+    def verdict(o, x):
+        try:
+            o.f(x)
+            return "ok"
+        except icontract.ViolationError:
+            return "violation"
+        except BaseException as e:  # noqa: B902
+            return "raised %s" % type(e).__name__
+
+    def state():
+        return [[verdict(cls(), x) for x in (5, 500, -1)] + [len(cls.f.__postconditions__), sum(len(g) for g in cls.f.__preconditions__)]
+                for cls in (Base, Sibling)]
+
+    before = state()
+    if case["how"] == "rebind":
+        Derived.f = icontract.ensure(small)(Derived.f)
+    else:
+        icontract.ensure(small)(Derived.f)
+    after = state()
+    fails = []
+    if before != after:
+        fails.append("decorating Derived.f (an override without own contracts) changed Base / Sibling: %s -> %s" % (before, after))
+    got = [verdict(Derived(), x) for x in (5, 500, -1)]
+    if got != ["ok", "violation", "violation"]:
+        fails.append("Derived.f after the late @ensure: verdicts %s for (5, 500, -1), expected ['ok', 'violation', 'violation']" % got)
+    return {"fails": fails}
+
+
+def late_decoration_of_inheriting_override_cases():
+    for base_doc in (True, False):
+        for derived_doc in (False, True):
+            for how in ("rebind", "inplace"):
+                yield {"dom": "directed", "name": "late_decoration_of_inheriting_override", "base_doc": base_doc, "derived_doc": derived_doc, "how": how}
+
+
+# --------------------------------------------------------------------------- C14
+
+def sync_layer_over_coroutine(case):
+    """a foreign, non-async functools.wraps decorator sits between a coroutine function and the contracts: the contracted
+    callable behaves like the uncontracted stack (it is a plain function; what it returns is what the layer returns)"""
+    import functools
+    import inspect
+
+    async def core(x):
+        return x + 1
+
+    def layer(fn):
+        if case["layer"] == "consuming":
+            @functools.wraps(fn)
+            def wrapper(*a, **k):
+                return _drive(fn(*a, **k))
+        else:
+            @functools.wraps(fn)
+            def wrapper(*a, **k):
+                return fn(*a, **k)
+        return wrapper
+
+    bare = layer(core)
+    deco = {"require": icontract.require(lambda x: x >= 0), "ensure": icontract.ensure(lambda result: result is not None),
+            "both": lambda f: icontract.require(lambda x: x >= 0)(icontract.ensure(lambda result: result is not None)(f))}[case["deco"]]
+    contracted = deco(layer(core))
+
+    def observe(fn):
+        try:
+            r = fn(4)
+            kind = "coroutine" if inspect.iscoroutine(r) else type(r).__name__
+            if inspect.iscoroutine(r):
+                r = _drive(r)
+        except BaseException as e:  # noqa: B902
+            return [inspect.iscoroutinefunction(fn), "raised", type(e).__name__]
+        return [inspect.iscoroutinefunction(fn), kind, r]
+
+    a, b = observe(bare), observe(contracted)
+    fails = []
+    if a != b:
+        fails.append("stack %s layer + %s: [is coroutine function, kind of the returned object, value] is %s without contracts and %s with satisfied contracts"
+                     % (case["layer"], case["deco"], a, b))
+    return {"fails": fails}
+
+
+def sync_layer_over_coroutine_cases():
+    for layer in ("consuming", "forwarding"):
+        for deco in ("require", "ensure", "both"):
+            yield {"dom": "directed", "name": "sync_layer_over_coroutine", "layer": layer, "deco": deco}
+
+
+def keyword_named_self(case):
+    """a method / constructor that takes the instance positional-only and collects **kwargs is called with a keyword
+    that happens to be called `self`: classes with (satisfied) invariants behave like the bare class"""
+    def build(with_inv):
+        ns = {}
+        exec("class K:\n"
+             "    def __init__(self, /, **kwargs):\n"
+             "        self.data = dict(kwargs)\n"
+             "    def update(self, /, **kwargs):\n"
+             "        self.data.update(kwargs)\n"
+             "        return sorted(self.data)\n"
+             "    async def aupdate(self, /, **kwargs):\n"
+             "        self.data.update(kwargs)\n"
+             "        return sorted(self.data)\n", ns)
+        K = ns["K"]
+        if with_inv:
+            def has_data(self):
+                return isinstance(self.data, dict)
+            K = icontract.invariant(has_data)(K)
+        return K
+
+    def observe(K):
+        out = []
+        other = K(z=1)
+        for what, thunk in (("ctor", lambda: K(self=1).data), ("method", lambda: K(a=1).update(self=2)),
+                            ("method-other-instance", lambda: K(a=1).update(self=other) and sorted(other.data)),
+                            ("async-method", lambda: _drive(K(a=1).aupdate(self=3)))):
+            try:
+                out.append([what, "ok", repr(thunk())])
+            except BaseException as e:  # noqa: B902
+                out.append([what, "raised", type(e).__name__])
+        return out
+
+    a, b = observe(build(False)), observe(build(True))
+    fails = []
+    for x, y in zip(a, b):
+        if x[:2] != y[:2] or (x[1] == "ok" and x[2] != y[2]):
+            fails.append("%s with a keyword named `self`: bare class %s, class with a satisfied invariant %s" % (x[0], x[1:], y[1:]))
+    return {"fails": fails}
+
+
+def keyword_named_self_cases():
+    yield {"dom": "directed", "name": "keyword_named_self"}
+
+
+# --------------------------------------------------------------------------- C11 (more)
+
+class _MyStop(StopIteration):
+    pass
+
+
+def odd_exception_classes(case):
+    """an exception of a class with a protocol meaning of its own (StopIteration, StopAsyncIteration, GeneratorExit, KeyError,
+    AttributeError ...) raised by a condition / capture of a SYNC callable surfaces as the very object, the body does not
+    run, and the next call is checked as usual"""
+    cls = {"StopIteration": StopIteration, "MyStop": _MyStop, "StopAsyncIteration": StopAsyncIteration, "GeneratorExit": GeneratorExit,
+           "KeyError": KeyError, "AttributeError": AttributeError, "LookupError": LookupError}[case["exc"]]
+    exc = cls("injected")
+    state = {"armed": True, "ok": True}
+    ran = []
+
+    def faulty(x):
+        if state["armed"]:
+            raise exc
+        return state["ok"]
+
+    def fine(x):
+        return True
+
+    site = case["site"]
+    fails = []
+    if site.startswith("pre"):
+        k = int(site[3:])
+        conds = [fine, fine, fine]
+        conds[k] = faulty
+
+        def f(x):
+            ran.append("f")
+            return x
+        for c in conds:            # the first of `conds` is applied first = nearest to the function = evaluated first
+            f = icontract.require(c)(f)
+        call = lambda: f(1)  # noqa: E731
+    elif site == "inherited":
+        class A(icontract.DBC):
+            @icontract.require(faulty)
+            def m(self, x):
+                ran.append("A.m")
+                return x
+
+        class B(A):
+            @icontract.require(lambda x: x > 100)
+            def m(self, x):
+                ran.append("f")
+                return x
+        o = B()
+        call = lambda: o.m(1)  # noqa: E731
+    elif site == "post":
+        @icontract.ensure(lambda result, x: faulty(x))
+        def f(x):
+            ran.append("f")
+            return x
+        call = lambda: f(1)  # noqa: E731
+    elif site == "capture":
+        @icontract.snapshot(lambda x: faulty(x), name="s")
+        @icontract.ensure(lambda OLD, result: True)
+        def f(x):
+            ran.append("f")
+            return x
+        call = lambda: f(1)  # noqa: E731
+    else:
+        @icontract.invariant(lambda self: faulty(0))
+        class K:
+            def __init__(self):
+                state["armed"] = False
+                self.v = 1
+
+            def m(self, x):
+                ran.append("f")
+                return x
+        o = K()
+        state["armed"] = True
+        call = lambda: o.m(1)  # noqa: E731
+    try:
+        call()
+        got = "returned"
+    except BaseException as e:  # noqa: B902
+        got = "same" if e is exc else "other %s: %s" % (type(e).__name__, str(e)[:60])
+    if got != "same":
+        fails.append("%s raised by the %s site: expected the very exception to surface, the call %s" % (case["exc"], site, got))
+    body_allowed = site == "post"
+    if ("f" in ran) != body_allowed:
+        fails.append("%s raised by the %s site: bodies run %s" % (case["exc"], site, ran))
+    # the next call: the condition now answers False -> a violation
+    state["armed"], state["ok"] = False, False
+    del ran[:]
+    try:
+        call()
+        nxt = "returned"
+    except icontract.ViolationError:
+        nxt = "violation"
+    except BaseException as e:  # noqa: B902
+        nxt = "raised %s" % type(e).__name__
+    want = "returned" if site == "capture" else "violation"
+    if nxt != want:
+        fails.append("the call after the %s from the %s site: %s, expected %s" % (case["exc"], site, nxt, want))
+    return {"fails": fails}
+
+
+def odd_exception_classes_cases():
+    for exc in ("StopIteration", "MyStop", "StopAsyncIteration", "GeneratorExit", "KeyError", "AttributeError", "LookupError"):
+        for site in ("pre0", "pre1", "pre2", "inherited", "post", "capture", "invariant"):
+            yield {"dom": "directed", "name": "odd_exception_classes", "exc": exc, "site": site}
+
+
+# --------------------------------------------------------------------------- C10 (more)
+
+def constructor_calls_back(case):
+    """while an object's invariants (or one of its public methods, or its constructor) are in progress, the constructor of
+    ANOTHER class with invariants runs and calls a public method of the outer object back: that call is still the outer
+    object's own re-entry (unchecked) - the evaluation terminates with the expected log"""
+    import sys
+    log = []
+
+    class View:
+        def __init__(self, owner):
+            log.append("View.__init__")
+            self.n = owner.size()
+
+        def ok(self):
+            return True
+
+    View = icontract.invariant(lambda self: log.append("View.inv") or True)(View)
+
+    class Box:
+        def __init__(self):
+            log.append("Box.__init__")
+            self.items = [1]
+            if case["where"] == "constructor":
+                View(self)
+
+        def size(self):
+            log.append("Box.size")
+            return len(self.items)
+
+        def poke(self):
+            log.append("Box.poke")
+            if case["where"] == "method":
+                View(self)
+            return 1
+
+    def box_inv(self):
+        log.append("Box.inv")
+        if case["where"] == "invariant":
+            View(self)
+        return True
+
+    Box = icontract.invariant(box_inv)(Box)
+    old = sys.getrecursionlimit()
+    sys.setrecursionlimit(600)
+    try:
+        try:
+            b = Box()
+            del log[:]
+            b.poke()
+            out = "ok"
+        except RecursionError:
+            out = "RecursionError"
+        except BaseException as e:  # noqa: B902
+            out = type(e).__name__
+    finally:
+        sys.setrecursionlimit(old)
+    want = {"invariant": ["Box.inv", "View.__init__", "Box.size", "View.inv", "Box.poke", "Box.inv", "View.__init__", "Box.size", "View.inv"],
+            "method": ["Box.inv", "Box.poke", "View.__init__", "Box.size", "View.inv", "Box.inv"],
+            "constructor": ["Box.inv", "Box.poke", "Box.inv"]}[case["where"]]
+    fails = []
+    if out != "ok" or log != want:
+        fails.append("a constructor running inside the outer object's %s calls the outer object back: outcome %s, evaluations %s; expected ok, %s"
+                     % (case["where"], out, log[:40], want))
+    return {"fails": fails}
+
+
+def constructor_calls_back_cases():
+    for where in ("invariant", "method", "constructor"):
+        yield {"dom": "directed", "name": "constructor_calls_back", "where": where}
+
+
+def contract_calls_same_method_of_fresh_object(case):
+    """a contract of a method calls the SAME method on an object created on the spot: the function is in progress, so the
+    nested call is its own re-entry (unchecked) whatever the receiver - the evaluation terminates"""
+    import sys
+    log = []
+
+    class Node:
+        def __init__(self, k):
+            self.k = k
+
+        def succ(self):
+            return Node(self.k + 1)
+
+    def post(self, result):
+        log.append(("post", self.k))
+        return self.succ().rank() == result + 1
+
+    def pre(self):
+        log.append(("pre", self.k))
+        return self.succ().rank() > 0
+
+    if case["async"]:
+        async def rank(self):
+            log.append(("rank", self.k))
+            return self.k
+
+        async def apost(self, result):
+            log.append(("post", self.k))
+            return (await self.succ().rank()) == result + 1
+
+        async def apre(self):
+            log.append(("pre", self.k))
+            return (await self.succ().rank()) > 0
+        deco = icontract.ensure(apost) if case["role"] == "ensure" else icontract.require(apre)
+    else:
+        def rank(self):
+            log.append(("rank", self.k))
+            return self.k
+        deco = icontract.ensure(post) if case["role"] == "ensure" else icontract.require(pre)
+    Node.rank = deco(rank)
+    old = sys.getrecursionlimit()
+    sys.setrecursionlimit(500)
+    try:
+        try:
+            r = Node(1).rank()
+            if case["async"]:
+                r = _drive(r)
+            out = ["ok", r]
+        except RecursionError:
+            out = ["RecursionError"]
+        except BaseException as e:  # noqa: B902
+            out = [type(e).__name__]
+    finally:
+        sys.setrecursionlimit(old)
+    want = [("rank", 1), ("post", 1), ("rank", 2)] if case["role"] == "ensure" else [("pre", 1), ("rank", 2), ("rank", 1)]
+    fails = []
+    if out != ["ok", 1] or log != want:
+        fails.append("a %s of rank() calls rank() on a freshly created object: outcome %s, evaluations %s; expected ['ok', 1], %s"
+                     % (case["role"], out, log[:20], want))
+    return {"fails": fails}
+
+
+def contract_calls_same_method_of_fresh_object_cases():
+    for a in (False, True):
+        for role in ("ensure", "require"):
+            yield {"dom": "directed", "name": "contract_calls_same_method_of_fresh_object", "async": a, "role": role}
+
+
+# --------------------------------------------------------------------------- C12 (more)
+
+def call_while_constructor_runs(case):
+    """an object hands itself over while its constructor is still running; ANOTHER thread / task calls an invariant-breaking
+    public method on it: that call is judged on its own (violation) - the constructor in flight elsewhere does not
+    switch its checks off"""
+    import contextvars
+    import threading
+    registry = []
+    ready, go = threading.Event(), threading.Event()
+
+    def nonneg(self):
+        return self.v >= 0
+
+    class K:
+        def __init__(self):
+            self.v = 1
+            registry.append(self)
+            ready.set()
+            go.wait(5)
+
+        def breaker(self):
+            self.v = -5
+            return self.v
+
+        def fine(self):
+            return self.v
+
+    K = icontract.invariant(nonneg)(K)
+    res = {}
+
+    def construct():
+        try:
+            K()
+            res["ctor"] = "ok"
+        except icontract.ViolationError:
+            res["ctor"] = "violation"
+        except BaseException as e:  # noqa: B902
+            res["ctor"] = type(e).__name__
+
+    t = threading.Thread(target=construct)
+    t.start()
+    fails = []
+    try:
+        if not ready.wait(5):
+            return {"fails": ["harness: the constructor did not start"]}
+        obj = registry[0]
+
+        def other():
+            try:
+                res["fine"] = ["ok", obj.fine()]
+            except BaseException as e:  # noqa: B902
+                res["fine"] = [type(e).__name__]
+            try:
+                res["breaker"] = ["returned", obj.breaker()]
+            except icontract.ViolationError:
+                res["breaker"] = ["violation"]
+            except BaseException as e:  # noqa: B902
+                res["breaker"] = [type(e).__name__]
+
+        if case["how"] == "thread":
+            t2 = threading.Thread(target=other)
+        else:
+            ctx = contextvars.copy_context()
+            t2 = threading.Thread(target=lambda: ctx.run(other))
+        t2.start()
+        t2.join(10)
+    finally:
+        go.set()
+        t.join(10)
+    if res.get("fine") != ["ok", 1]:
+        fails.append("a harmless public method called from another %s while the constructor runs: %s" % (case["how"], res.get("fine")))
+    if res.get("breaker") != ["violation"]:
+        fails.append("an invariant-breaking public method called from another %s while the object's constructor is still running "
+                     "elsewhere: %s, expected a violation" % (case["how"], res.get("breaker")))
+    return {"fails": fails}
+
+
+def call_while_constructor_runs_cases():
+    for how in ("thread", "copied-context-thread"):
+        yield {"dom": "directed", "name": "call_while_constructor_runs", "how": how}
+
+
+SCENARIOS = {"call_while_constructor_runs": call_while_constructor_runs, "constructor_calls_back": constructor_calls_back, "contract_calls_same_method_of_fresh_object": contract_calls_same_method_of_fresh_object, "odd_exception_classes": odd_exception_classes, "sync_layer_over_coroutine": sync_layer_over_coroutine, "keyword_named_self": keyword_named_self, "decorating_another_function": decorating_another_function, "late_decoration_of_inheriting_override": late_decoration_of_inheriting_override, "used_before_override": used_before_override, "rewritten_file": rewritten_file, "shared_decorator": shared_decorator, "construct_inside_contract": construct_inside_contract,
              "cancelled_in_body": cancelled_in_body, "recreated_class": recreated_class}
 
 
